@@ -55,7 +55,44 @@ func ruleWalkWiring(c *Ctx) {
 	}
 }
 
+// resolveTrampoline: a bound-method wrapper or a function whose body is one static call whose result it returns
+// stands for the function it calls (callbacks written as methods on the per-call state).
+func resolveTrampoline(f *ssa.Function, depth int) *ssa.Function {
+	if f == nil || f.Blocks == nil || depth > 3 {
+		return f
+	}
+	if len(f.Blocks) != 1 {
+		return f
+	}
+	var only *ssa.Call
+	for _, in := range f.Blocks[0].Instrs {
+		switch x := in.(type) {
+		case *ssa.Call:
+			if only != nil {
+				return f
+			}
+			only = x
+		case *ssa.Return:
+			if only == nil || len(x.Results) != 1 || x.Results[0] != ssa.Value(only) {
+				return f
+			}
+		case *ssa.DebugRef:
+		default:
+			if _, isVal := in.(ssa.Value); isVal {
+				// loads of free variables / field reads feeding the call are fine
+				continue
+			}
+			return f
+		}
+	}
+	if only == nil || only.Call.StaticCallee() == nil {
+		return f
+	}
+	return resolveTrampoline(only.Call.StaticCallee(), depth+1)
+}
+
 func checkWalkCallback(c *Ctx, owner, cb *ssa.Function, fld string, n *int) {
+	cb = resolveTrampoline(cb, 0)
 	want := strings.ToLower(fld) // "pre" | "post"
 	emitters := map[string]bool{}
 	var foreign []string
